@@ -180,9 +180,9 @@ pub fn run(ctx: &Ctx, rec: &mut Rec) {
     let mut work: Vec<(usize, Inp, String)> = Vec::new();
     for (gi, g) in gs.iter().enumerate() {
         let budget = match g.kind {
-            "EBits" => ctx.scale(60, 400),
-            "F" => ctx.scale(200, 1500),
-            _ => ctx.scale(160, 1200),
+            "EBits" => ctx.scale(120, 600),
+            "F" => ctx.scale(500, 3000),
+            _ => ctx.scale(400, 2400),
         };
         for (inp, cl) in inputs_for(ctx, g, &zoo, &mut zrng, budget) {
             work.push((gi, inp, cl));
@@ -230,7 +230,7 @@ fn lazy_histories(ctx: &Ctx, rec: &mut Rec, zoo: &[SE]) {
     rec.count("lazy_histories_per_start_state", seqs.len() as u64);
     rec.declare_form("lazy: start=Encoding");
     rec.declare_form("lazy: start=Element");
-    let elems: Vec<&SE> = zoo.iter().filter(|e| ["identity", "G", "other-rep", "elligator", "rescaled"].contains(&e.class)).take(ctx.scale(3, 12)).collect();
+    let elems: Vec<&SE> = zoo.iter().filter(|e| ["identity", "G", "other-rep", "elligator", "rescaled"].contains(&e.class)).take(ctx.scale(5, 12)).collect();
     par(rec, |w, n, rec| {
         for (ei, e) in elems.iter().enumerate() {
             let native_enc = e.l.vartime_compress_to_field();
@@ -365,7 +365,7 @@ fn gadget_programs(ctx: &Ctx, rec: &mut Rec, zoo: &[SE]) {
     for st in ["start: raw element", "start: new_witness<Element>", "start: new_input<Element>", "start: new_witness<Fq> encoding", "start: constant"] {
         rec.declare_class(st);
     }
-    let nprog = ctx.scale(700, 12_000);
+    let nprog = ctx.scale(4000, 40_000);
     par(rec, |w, n, rec| {
         let mut rng = rng_for(ctx.seed, P, w, 77);
         for pi in 0..nprog {
